@@ -19,7 +19,7 @@ RULE = (
     "filter's own gate admits, so a covariance that passes the invariant can never be legitimately refused by the next "
     "call). A history is truncated (not failed) when |P| leaves [1e-6,1e3] or |x| exceeds 100 (bounded dynamic range: prior/noise <= 2e4; nonlinear sensor Jacobians stay <= ~3e4 so that eps*|H|^2*|P| stays below the sensor noise). Non-trivial = >=5 executed steps with "
     "both predictions and updates on a model whose process Jacobian is singular or whose initial covariance is rank "
-    "deficient; distinct = sha1(case). The same kind of history (<= 25 steps, bounded range) is also run through the generated C++ filter (one compile per history): every covariance it returns from a valid one must be valid. A quarter of the cases are 'wide dynamic range' histories (prior L L^T up to ~1e6 with "
+    "deficient; distinct = sha1(case). The same kind of history (<= 25 steps, bounded range) is also run through the generated C++ filter (one compile per history): every covariance it returns from a valid one must be valid. A separate gate layer hands an identity-model filter covariances D C D whose per-state magnitudes span up to 13 decades, symmetric up to a perturbation of 1e-17..1e-14 of their largest entry: they must be accepted and returned unchanged (D16). A quarter of the cases are 'wide dynamic range' histories (prior L L^T up to ~1e6 with "
     "correlated states, sensor noise 1e-3..1e-1): there only the gate is judged: a refusal "
     "counts iff the refused input was symmetric/PSD to 1e-12 of its own magnitude; an output that is not strictly valid "
     "(accuracy there is eps*cond(S)*|prior|) truncates the history."
@@ -148,8 +148,57 @@ def singular_jacobian(f, m, state, control):
     return s[-1] <= 1e-12 * max(1.0, s[0])
 
 
+@st.composite
+def gate_cases(draw):
+    """the validity gate on its own: covariances D C D with a well-conditioned correlation-like C and per-state magnitudes
+    10**e_i spread over many decades, symmetric up to a rounding-sized perturbation RELATIVE TO THEIR MAGNITUDE"""
+    n = draw(st.integers(2, 4))
+    C = draw(ekf.spd(n, lam=(0.5, 2.0)))
+    exps = [draw(st.sampled_from([-3.0, -1.0, 0.0, 2.0, 5.0, 8.0, 10.0])) for _ in range(n)]
+    pert = [[draw(st.floats(-1.0, 1.0, allow_nan=False)) for _ in range(n)] for _ in range(n)]
+    return {"layer": "gate", "n": n, "C": C, "exps": exps, "pert": pert, "rel": draw(st.sampled_from([0.0, 1e-17, 1e-16, 1e-15, 1e-14]))}
+
+
+_gate_filters = {}
+
+
+def gate_case(spec, ctx):
+    """x' = x filter (G = I, no process noise): process_model(dt) returns the covariance it was given, so the only thing
+    that can happen to a valid covariance is that the filter refuses it"""
+    from formak import python, ui
+
+    n = spec["n"]
+    if n not in _gate_filters:
+        xs = [ui.Symbol(f"x{i}") for i in range(n)]
+        model = ui.Model(dt=ui.Symbol("dt"), state=set(xs), control=set(), state_model={x: x for x in xs})
+        _gate_filters[n] = python.compile_ekf(model, process_noise={}, sensor_models={"s": {"r": xs[0]}},
+                                              sensor_noises={"s": {"r": 1.0}}, config=python.Config(innovation_filtering=None))
+    f = _gate_filters[n]
+    D = np.diag([10.0 ** e for e in spec["exps"]])
+    P = D @ np.array(spec["C"], float) @ D
+    P = (P + P.T) / 2
+    mx = float(np.max(np.abs(P)))
+    P = P + spec["rel"] * mx * np.triu(np.array(spec["pert"], float), 1)  # asymmetry of rounding size relative to |P|
+    if not strictly_valid(P):
+        ctx.skip("gate-case-not-strictly-valid")
+    cov = f.Covariance.from_data(P)
+    try:
+        out = f.process_model(0.1, f.State(), cov)
+    except AssertionError as e:
+        where = ctxmod.formak_frame(e.__traceback__)
+        ctx.fail(f"refused-valid-covariance:gate@{where}",
+                 f"magnitudes 10**{spec['exps']}, asymmetry {spec['rel']:g} of max|P|={mx:g}: {str(e)[:200]}", spec)
+    if not np.array_equal(np.asarray(out.covariance.data, float), P):
+        ctx.fail("gate:identity-model-changed-covariance", "", spec)
+    ctx.event(f"gate:decades={int(max(spec['exps']) - min(spec['exps']))}")
+    if max(spec["exps"]) - min(spec["exps"]) >= 5 and spec["rel"] > 0:
+        ctx.nontrivial(spec)
+
+
 def case(spec, ctx):
     ctxmod.import_formak()
+    if spec.get("layer") == "gate":
+        return gate_case(spec, ctx)
     if spec.get("layer") == "cpp":
         return cpp_case(spec, ctx)
     m = spec["model"]
@@ -287,5 +336,6 @@ def cpp_case(spec, ctx):
 
 
 def shard(ctx):
-    ctx.run_given(cases(steps=ctx.budget["steps"]), case, share=0.6)
+    ctx.run_given(gate_cases(), case, examples=max(20, ctx.examples // 2), label="gate", share=0.1)
+    ctx.run_given(cases(steps=ctx.budget["steps"]), case, share=0.55)
     ctx.run_given(cases(steps=25, cpp=True), case, examples=ctx.budget.get("cpp_examples", 2), label="cpp")
